@@ -14,7 +14,9 @@ RULE = (
     "channels, no nuisance; family C: on/off with one Poisson-constrained nuisance) and small well-posed "
     "general models x data generated at true mu in {0, mu/2, mu, 2mu, 4mu} (integers and Asimov "
     "non-integers) x tested mu across the POI range (incl. the closed-form best fit) x {qmu, qmu_tilde, q0, "
-    "tmu, tmu_tilde} x POI lower bound {0, -5} x {scipy, minuit}. Oracles: q>=0; q == max(0, 2 NLL_ref("
+    "tmu, tmu_tilde} x POI lower bound {0, -5} x {scipy, minuit} x nuisance parameters floating or held "
+    "constant by the caller through fixed_params (a quarter of the cases). Oracles: caller-held entries "
+    "unchanged in both returned parameter vectors; q>=0; q == max(0, 2 NLL_ref("
     "returned conditional pars) - 2 NLL_ref(returned free pars)) with the one-sided rule applied to the "
     "returned fitted POI; conditional POI == mu exactly (0 for q0); closed-form value for families A/C; "
     "q ~ 0 at the best fit. Non-trivial: a zeroing branch taken, fitted POI on the lower bound, or the "
